@@ -72,7 +72,7 @@ def _cases(ctx, nl):
     rng = random.Random(ctx.seed * 13 + 4)
     cases = []
     hist = {'lenses': 0, 'mirrors': 0, 'finite_object': 0, 'stop_first': 0, 'stop_last': 0, 'aperture': {}, 'field': {}}
-    corp = [c for c in lensgen.corpus() if c['name'] in ('mangin', 'image-in-glass', 'tir-planoconvex')]
+    corp = [c for c in lensgen.corpus() if c['name'] in ('mangin', 'image-in-glass', 'tir-planoconvex', 'window-before-stop', 'cemented')]
     for li in range(nl + len(corp)):
         spec = dict(corp[li]) if li < len(corp) else lensgen.gen_spec(rng, allow=['plane', 'standard', 'conic', 'even_asphere'], decenter=False,
                                                                                   finite_object=(True if li % 4 == 3 else None))
@@ -81,6 +81,8 @@ def _cases(ctx, nl):
             hist['immersed'] = hist.get('immersed', 0) + 1
             if rng.random() < 0.5:
                 spec['aperture'] = ['objectNA', rng.uniform(0.02, 0.3)]
+        if li >= len(corp) and li % 6 == 2:
+            hist['cemented_interfaces'] = hist.get('cemented_interfaces', 0) + lensgen.cement(spec, rng)
         if li >= len(corp) and li % 5 == 4 and len(spec['fields']) > 1:
             lensgen.reorder_fields(spec, rng)      # the maximum field does not depend on the order of the field list
             hist['fields_reordered'] = hist.get('fields_reordered', 0) + 1
